@@ -832,8 +832,58 @@ func c02Long(c *fw.Ctx, idx int) {
 			return
 		}
 	}
-	a.sweep(c, "at the end of the long history")
+	if !a.sweep(c, "at the end of the long history") {
+		return
+	}
 	c.Distinct(fmt.Sprintf("long/%s/%s/%d", kind, layout, n0))
+	// two geometries with a long run of empty parts in the middle (32, 64, 100 of
+	// them), parts of different sizes before the run; the part after the run is
+	// looked at, the two are swapped, and it is looked at again
+	if kind == model.Polygon {
+		return
+	}
+	b := newTracked(kind, layout, 0)
+	a2 := newTracked(kind, layout, 0)
+	build := func(tr *tracked) bool {
+		save := a
+		a = tr
+		defer func() { a = save }()
+		for i := r.Range(1, 4); i > 0; i-- {
+			if !pushOne(small(false)) {
+				return false
+			}
+		}
+		for i := []int{31, 32, 33, 64, 65, 100}[r.Intn(6)]; i > 0; i-- {
+			// parts with nothing in them at all (for a MultiPolygon: polygons without rings)
+			e := &model.G{Kind: partKind(kind), Layout: layout}
+			if r.Chance(1, 10) {
+				e = small(true)
+			}
+			if !pushOne(e) {
+				return false
+			}
+		}
+		for i := r.Range(1, 3); i > 0; i-- {
+			if !pushOne(small(false)) {
+				return false
+			}
+		}
+		return true
+	}
+	if !build(a2) || !build(b) {
+		return
+	}
+	c.SetInput(map[string]any{"kind": kind.String(), "layout": layout.String(), "history": "two geometries: a few parts, a run of 31..100 empty parts, a few parts; accessors, Swap, accessors"})
+	if !a2.sweep(c, "geometry A with a long run of empty parts") || !b.sweep(c, "geometry B with a long run of empty parts") {
+		return
+	}
+	if c.Guard("panic", func() { swapTracked(a2, b) }) {
+		return
+	}
+	c.Count("long_runs_of_empty_parts_swapped")
+	if !a2.sweep(c, "geometry A after A.Swap(B)") || !b.sweep(c, "geometry B after A.Swap(B)") {
+		return
+	}
 }
 
 // exhaustive MultiPolygon histories of length <= 5 over a 4-part alphabet
